@@ -107,6 +107,8 @@ def crlf_fragments(ctx):
                                   ("subtract_lines", [sub], text([l for l in ls if l not in (b"gamma", b"abcde")]))):
             for how, pcs in (("one piece", [data]), ("fragments ending between CR and LF", pieces)):
                 st, out, err = feed_pieces([ctx.bin(tool_)] + args, pcs, pvlib.san_env())
+                if st == "HANG":        # only a verdict if it is not the machine that is slow: once more with four times the limit
+                    st, out, err = feed_pieces([ctx.bin(tool_)] + args, pcs, pvlib.san_env(), timeout=240)
                 ctx.count("crlf-fragments", 1, [(tool_, first, how)])
                 if st != 0 or out != want:
                     pvlib.report_violation(ctx, f"crlf:{tool_}:{hx(first)[:20]}:{how[:3]}", {"argv": [tool_] + (["<file: gamma, abcde>"] if tool_ == "subtract_lines" else args),
